@@ -59,16 +59,21 @@ type readReq struct {
 	Norm   string // "blockstream": the answer is a stream of (x,y,z int32, n int32, n bytes) records sent in no fixed order; sorted before comparison
 }
 
-// sortBlockStream orders the records of a labelmap/labelarray GET blocks answer by (z,y,x).
+// sortBlockStream orders the records of a labelmap/labelarray GET blocks answer by (z,y,x).  When the stream
+// ends in something that is not a record (the text of an error met after the first blocks were sent, e.g. at
+// a merge node whose parents conflict), the complete records before it are ordered all the same and the
+// remainder is kept verbatim behind them: which blocks were sent and what followed is still compared.
 func sortBlockStream(b []byte) []byte {
 	type rec struct {
 		c   [3]int32
 		raw []byte
 	}
 	var recs []rec
+	var rest []byte
 	for p := 0; p < len(b); {
 		if p+16 > len(b) {
-			return b
+			rest = b[p:]
+			break
 		}
 		var c [3]int32
 		for i := 0; i < 3; i++ {
@@ -76,7 +81,8 @@ func sortBlockStream(b []byte) []byte {
 		}
 		n := int(int32(binary.LittleEndian.Uint32(b[p+12:])))
 		if n < 0 || p+16+n > len(b) {
-			return b
+			rest = b[p:]
+			break
 		}
 		recs = append(recs, rec{c, b[p : p+16+n]})
 		p += 16 + n
@@ -95,7 +101,7 @@ func sortBlockStream(b []byte) []byte {
 	for _, r := range recs {
 		out = append(out, r.raw...)
 	}
-	return out
+	return append(out, rest...)
 }
 
 // sortRLEs orders the 16-byte runs that follow the 12-byte header of a legacy sparse-volume answer.
